@@ -195,6 +195,9 @@ class QBitsTensor(QTensor):
             functional = functional_variant(overload)
             if functional is not None:
                 # In-place operation: the fallback would only modify a dequantized copy of the Tensor
+                if op == torch.ops.aten.copy_ and isinstance(args[1], QBitsTensor):
+                    # (a Tensor quantized the same way is copied as it is)
+                    return args[0]._update(args[1])
                 return args[0]._update(functional(*args, **(kwargs or {})))
         # No dispatch available: qfallback
         return qfallback(op, *args, **kwargs)
@@ -208,9 +211,15 @@ class QBitsTensor(QTensor):
         if t.numel() == 0:
             # Nothing to update
             return self
-        if isinstance(t, QTensor):
-            t = t.dequantize()
-        t = quantize_weight(t.to(self.dtype), self.qtype, self.axis, self._group_size)
+        if (
+            isinstance(t, QBitsTensor)
+            and (t.qtype, t.axis, t._group_size, t.dtype) == (self.qtype, self.axis, self._group_size, self.dtype)
+        ):
+            t = t.clone()
+        else:
+            if isinstance(t, QTensor):
+                t = t.dequantize()
+            t = quantize_weight(t.to(self.dtype), self.qtype, self.axis, self._group_size)
         if type(t) != QBitsTensor:
             t = t.qbits_tensor()
         # The inner tensors might be shared with other quantized tensors: they must not be modified
